@@ -121,4 +121,24 @@ def metVisits (T : Tables) (env : Env) (cfg : Cfg) (latched : Bool) (detect : Pa
   else if !cfg.silent && inp.printRaises then 0
   else pathwayVisits T env cfg inp (forced.getD detect)
 
+/-! ### The literal route of the transform pathway
+
+`_beta_oxidation` hands the stripped text to `ast.literal_eval` first (JSON only reads what is not a Python literal).  On a
+tree of constants, list and tuple displays `literal_eval` returns the structural value; the driver computes this itself
+and takes the environment's answer (`Inp.beta`) only for the other texts (dict / set displays, signed numbers, JSON). -/
+
+mutual
+def litEval : Expr → Option Val
+  | .const v => some v
+  | .list es => (litEvalList es).map .list
+  | .tuple es => (litEvalList es).map .tuple
+  | _ => none
+def litEvalList : List Expr → Option (List Val)
+  | [] => some []
+  | e :: es =>
+    match litEval e, litEvalList es with
+    | some v, some vs => some (v :: vs)
+    | _, _ => none
+end
+
 end Operon.Mito
